@@ -50,7 +50,7 @@ CLAIMS = {
         ref='DESIGN.md §5 C09'),
     'C14': dict(
         text='Lean 4 theorems about dtml-try / dtml-raise / dtml-return of the interpreter model, for ALL programs, class tables, '
-             'namespaces, fault plans and fuel: gen_find_handler_is_model / gen_match_base_is_model (Try.find_handler / match_base TRANSLATED from /repo on every run equal findHandler / matchBase), handler_selected (findHandler = FIRST handler naming the class, a base, or bare: '
+             'namespaces, fault plans and fuel: gen_find_handler_is_model / gen_match_base_is_model (Try.find_handler / match_base TRANSLATED from /repo on every run equal findHandler / matchBase), gen_try_except_is_model / gen_try_finally_is_model / gen_return_is_model (Try.render_try_except, render_try_finally and ReturnTag.render TRANSLATED likewise equal the interpreter\'s try_ / tryFin / ret cases), handler_selected (findHandler = FIRST handler naming the class, a base, or bare: '
              'iff-characterisation over the handler list), no_handler_iff, matchBase_sound / matchBase_complete (transitive '
              'base relation), try_no_exception, else_exception_propagates, unmatched_propagates, handler_rendered, '
              'else_only_without_exception, handler_exception_propagates, handler_bindings (+ _scoped, from C08), return_not_caught, '
